@@ -1,4 +1,5 @@
 import Hertz.Proofs.Resp
+import Hertz.Proofs.RespMessage
 /-!
 # C04 — every response put on the wire is one well-formed, correctly framed message
 
@@ -21,12 +22,37 @@ Proved for all inputs:
 * `bodiless_carry_no_body`: HEAD, 1xx, 204, 304 never put body bytes on the wire (hijacked writer
   excluded, as documented);
 * `content_length_matches`: with `Content-Length: n` framing and no writer error, the body on the
-  wire has exactly `n` bytes (or none for HEAD).
+  wire has exactly `n` bytes (or none for HEAD);
+* `appendUint_roundtrip`: the decimal `AppendUint` writes (Content-Length value) reads back as the same number;
+* `head_decodes`: header block + anything: the strict reader gets the status, exactly the kept fields and the
+  writer's framing (C05's head theorem joined with the framing fields `SetContentLength` writes);
+* `fixed_length_message`, `declared_stream_message`, `chunked_message`, `writer_message`, `bodiless_message`:
+  the whole message per body kind, with the decoded message spelled out;
+* **`response_decodes`** — the single end-to-end statement: for every header state satisfying `HeadOK`, every
+  status 100..999, every body kind (bytes / stream of declared length / `io.LimitedReader` / unknown length /
+  hijacked writer), HEAD or not, every trailer, and every `rest`:
+  `decodeOne isHead (message r p isHead ++ rest) = some (expected r p isHead, rest)` — exactly one message,
+  correctly framed, nothing left over, nothing swallowed; `two_responses_decode` for a pipeline;
+* `response_decodes_any_state`: the same for every header state the setters can produce (`HeadInv`:
+  Content-Length already set by `SetBodyStream`/`Header.Set`, `Transfer-Encoding: chunked` already in the
+  generic fields), and `set_content_length_keeps_invariant`;
+* where it is false: `response_decodes_fails_at_writer_on_head` (hijacked writer answering HEAD: the
+  documented exclusion, now a theorem with the leftover bytes), `status_out_of_range_fails_at`
+  (`SetStatusCode(1000)`/`(99)` written verbatim), `length_set_after_chunked_stream_fails_at`
+  (finding: `SetBodyStream(r,-1)` + `Header.Set("Content-Length","5")` puts both framing headers on the
+  wire with an unchunked body) — each replayed on the real server, bytes quoted in the statement.
 
-TODO-OPEN: the single statement `decodeOne isHead (head ++ wire ++ rest) = (status, fields, body, rest)`
-joining the C05 head theorem with the framing theorems above (needs the decimal `AppendUint` round
-trip and the invariant that no generic field is named Content-Length/Transfer-Encoding); decided per
-explored case by the spec step.
+TODO-OPEN (what remains outside the theorems):
+* `message`/`withFraming` (the header state after `SetContentLength`, glued to `frame`'s body bytes) is a
+  definition of the proof file `Proofs/RespMessage.lean`; the driver compares `frame` (framing + body bytes)
+  and, in C05, `RespHdr.bytes` with the real server, but not `message` as a whole — it is pinned to the real
+  bytes only by the `example`s below (four replayed responses, byte for byte);
+* a body stream that delivers fewer bytes than declared (`failed = true`) is excluded by hypothesis: the
+  message is cut short and the connection closed (checked per case by the driver);
+* the `Connection` header decision (`connHeader`) and the sequencing of several responses on one connection
+  (`expected` in the driver) are still checked per explored case only;
+* header states outside `HeadInv` (generic field literally named Content-Length through `AddArgBytes`, a
+  Content-Length that does not parse) are not covered.
 -/
 namespace Hertz.Props.C04
 open Hertz Hertz.H1.Resp Hertz.Spec.Resp
@@ -154,5 +180,311 @@ example : chunks 4 (writerWire [.write [97, 98], .write [], .write [99, 100]] []
 
 example : (frame { status := 204, body := .bytes [120] } false).wire = [] ∧
     (frame { status := 200, body := .bytes [120] } true).framing = .cl 1 := by decide
+
+/-! ## The whole message (head + body) through the strict reader
+
+`message r p isHead` is everything the writer puts on the wire for one response: the header block of
+the C05 model for the header state `withFraming r framing` (= `r` after the `SetContentLength` call
+`resp.Write` / `writeBodyStream` / the hijacked writer make for the framing `frame` decides) followed by
+the body bytes of `frame`.  `expected r p isHead` is the one message a reader must get: the status,
+exactly the kept fields, the writer's framing, the handler's payload (nothing for HEAD/1xx/204/304) and
+the trailer fields.  Hypotheses, each an explicit predicate:
+* `HeadOK r status`: status line `HTTP/1.1 NNN reason` with `100 ≤ NNN ≤ 999` and a reason free of CR/LF;
+  no `contentLengthBytes` yet; no generic field called Content-Length / Transfer-Encoding;
+* `SizesFit p`: lengths are Go `int`s (`< 2^63`);
+* `WriterHasBody p isHead`: the documented exclusion (hijacked writer on a bodiless response);
+* `failed = false`: the body stream delivered what was declared (otherwise the writer reports an error
+  and the connection is closed). -/
+
+open Hertz.HW in
+/-- (a) the decimal `AppendUint` writes reads back as the same number -/
+theorem appendUint_roundtrip (n : Nat) (h : n < 2 ^ 63) :
+    FS.appendUint (n : Int) = .ok (decimal n) ∧ parseDec (decimal n) = some n :=
+  ⟨appendUint_decimal n (Nat.lt_trans h two63_lt), parseDec_decimal n (Nat.lt_trans h two63_lt)⟩
+
+example : FS.appendUint 4096 = .ok [52, 48, 57, 54] ∧ parseDec [52, 48, 57, 54] = some 4096 := by decide
+
+/-- the reader's opinion of the header alone: the status, exactly the kept fields, the writer's framing -/
+theorem head_decodes (r : HW.RespHdr) (st : Nat) (f : H1.Resp.Framing) (isHead : Bool) (tail : Bytes)
+    (hr : HeadOK r st) (hn : ∀ n, f = .cl n → n < 2 ^ 63) :
+    decodeOne isHead ((withFraming r f).bytes ++ tail) =
+      bodyOf isHead st (HW.kept (withFraming r f).fields) (toSpec f) tail :=
+  decode_message r st f isHead tail hr (fun n e => Nat.lt_trans (hn n e) two63_lt)
+
+/-- (b) fixed length: `SetBody`/`AppendBody`/`Write` with a status that may carry a body, not HEAD -/
+theorem fixed_length_message (r : HW.RespHdr) (st : Nat) (b : Bytes) (tr : List (Bytes × Bytes)) (rest : Bytes)
+    (hr : HeadOK r st) (hs : b.length < 2 ^ 63) (hb : noBodyStatus st = false) :
+    decodeOne false (message r ⟨st, .bytes b, tr⟩ false ++ rest) =
+      some ({ status := st, fields := HW.kept (withFraming r (.cl b.length)).fields, framing := .cl b.length,
+              raw := b, body := b, trailers := [] }, rest) := by
+  rw [message_with_body r ⟨st, .bytes b, tr⟩ rest hr hs (by simp [frame]) hb]
+  simp [expected, payload, frame, mustSkipCL_eq, hb, toSpec]
+
+/-- (b') body stream of declared length that delivers it -/
+theorem declared_stream_message (r : HW.RespHdr) (st n : Nat) (reads : List Bytes) (tr : List (Bytes × Bytes))
+    (rest : Bytes) (hr : HeadOK r st) (hn : n < 2 ^ 63) (hs : ∀ x ∈ reads, x.length < 2 ^ 63)
+    (hlen : (takeStream n reads).length = n) (hb : noBodyStatus st = false) :
+    decodeOne false (message r ⟨st, .stream n reads, tr⟩ false ++ rest) =
+      some ({ status := st, fields := HW.kept (withFraming r (.cl n)).fields, framing := .cl n,
+              raw := takeStream n reads, body := takeStream n reads, trailers := [] }, rest) := by
+  rw [message_with_body r ⟨st, .stream n reads, tr⟩ rest hr ⟨by show ((n : Nat) : Int) < 2 ^ 63; omega, hs⟩
+    (by simp [frame, mustSkipCL_eq, hb, hlen]) hb]
+  simp [expected, payload, frame, mustSkipCL_eq, hb, toSpec]
+
+/-- (c) unknown length: chunked, any sequence of reads, any trailer -/
+theorem chunked_message (r : HW.RespHdr) (st : Nat) (reads : List Bytes) (tr : List (Bytes × Bytes)) (rest : Bytes)
+    (hr : HeadOK r st) (hs : ∀ x ∈ reads, x.length < 2 ^ 63) (hb : noBodyStatus st = false) :
+    decodeOne false (message r ⟨st, .stream (-1) reads, tr⟩ false ++ rest) =
+      some ({ status := st, fields := HW.kept (withFraming r .chunked).fields, framing := .chunked,
+              raw := chunkedWire reads tr, body := reads.flatten, trailers := HW.kept tr }, rest) := by
+  rw [message_with_body r ⟨st, .stream (-1) reads, tr⟩ rest hr ⟨by decide, hs⟩ (by simp [frame, mustSkipCL_eq, hb]) hb]
+  simp [expected, payload, frame, mustSkipCL_eq, hb, toSpec]
+
+/-- (c') the hijacked chunked writer, every write/flush pattern -/
+theorem writer_message (r : HW.RespHdr) (st : Nat) (script : List WOp) (tr : List (Bytes × Bytes)) (rest : Bytes)
+    (hr : HeadOK r st) (hs : ∀ o ∈ script, ∀ b, o = .write b → b.length < 2 ^ 63) (hb : noBodyStatus st = false) :
+    decodeOne false (message r ⟨st, .writer script, tr⟩ false ++ rest) =
+      some ({ status := st, fields := HW.kept (withFraming r .chunked).fields, framing := .chunked,
+              raw := writerWire script tr, body := writtenBytes script, trailers := HW.kept tr }, rest) := by
+  rw [message_with_body r ⟨st, .writer script, tr⟩ rest hr hs (by simp [frame]) hb]
+  simp [expected, payload, frame, mustSkipCL_eq, hb, toSpec]
+
+/-- `writtenBytes` of the lemma file is `written` above -/
+theorem writtenBytes_eq_written (script : List WOp) : writtenBytes script = written script := rfl
+
+/-- (d) HEAD, 1xx, 204, 304: the header block is the whole message, whatever the handler set as body -/
+theorem bodiless_message (r : HW.RespHdr) (p : Prog) (isHead : Bool) (rest : Bytes)
+    (hr : HeadOK r p.status) (hs : SizesFit p) (hw : WriterHasBody p isHead)
+    (hb : isHead = true ∨ noBodyStatus p.status = true) :
+    decodeOne isHead (message r p isHead ++ rest) =
+      some ({ status := p.status, fields := HW.kept (withFraming r (frame p isHead).framing).fields,
+              framing := toSpec (frame p isHead).framing, raw := [], body := [], trailers := [] }, rest) := by
+  have hb' : (isHead || noBodyStatus p.status) = true := by rcases hb with h | h <;> simp [h]
+  rw [message_bodiless r p isHead rest hr hs hw hb']
+  simp [expected, payload, hb', frame_wire_bodiless p isHead hw hb']
+
+/-- (e) **every response is exactly one message**: for every header state, status, body kind, HEAD or
+not, and whatever follows on the connection, the strict reader returns the status, exactly the kept
+fields, the writer's framing, the handler's payload, the trailer fields — and `rest` untouched. -/
+theorem response_decodes (r : HW.RespHdr) (p : Prog) (isHead : Bool) (rest : Bytes)
+    (hr : HeadOK r p.status) (hs : SizesFit p) (hw : WriterHasBody p isHead)
+    (hok : (frame p isHead).failed = false) :
+    decodeOne isHead (message r p isHead ++ rest) = some (expected r p isHead, rest) :=
+  message_decodes r p isHead rest hr hs hw hok
+
+/-- consequence: a sequence of responses on one connection is read back one by one -/
+theorem two_responses_decode (r1 r2 : HW.RespHdr) (p1 p2 : Prog) (h1 h2 : Bool) (rest : Bytes)
+    (hr1 : HeadOK r1 p1.status) (hs1 : SizesFit p1) (hw1 : WriterHasBody p1 h1) (hok1 : (frame p1 h1).failed = false)
+    (hr2 : HeadOK r2 p2.status) (hs2 : SizesFit p2) (hw2 : WriterHasBody p2 h2) (hok2 : (frame p2 h2).failed = false) :
+    decodeOne h1 (message r1 p1 h1 ++ (message r2 p2 h2 ++ rest)) = some (expected r1 p1 h1, message r2 p2 h2 ++ rest) ∧
+    decodeOne h2 (message r2 p2 h2 ++ rest) = some (expected r2 p2 h2, rest) :=
+  ⟨message_decodes r1 p1 h1 _ hr1 hs1 hw1 hok1, message_decodes r2 p2 h2 rest hr2 hs2 hw2 hok2⟩
+
+/-! ### non-vacuity: a concrete header state and what goes on the wire -/
+
+/-- `HTTP/1.1 200 OK`, `Server: h`, `X-A: 1` and a hostile field `X\r\nB: 2` (dropped by `appendHeaderLine`) -/
+def r0 : HW.RespHdr :=
+  { statusLine := statusLineOf 200 [79, 75], server := [104], date := none, contentType := [], contentLength := 0,
+    contentEncoding := [], clBytes := [], h := [([88, 45, 65], [49]), ([88, 13, 10, 66], [50])], trailer := [],
+    cookies := [], connClose := false }
+
+theorem r0_ok : HeadOK r0 200 := by
+  refine ⟨by decide, by decide, ⟨[79, 75], by unfold NoCRLF; decide, rfl⟩, rfl, ?_⟩
+  rw [sCL_eq, sTE_eq]
+  decide
+
+/-- `SetBodyString("hi")` -/
+example : message r0 ⟨200, .bytes [104, 105], []⟩ false =
+    -- HTTP/1.1 200 OK\r\nServer: h\r\nContent-Length: 2\r\nX-A: 1\r\n\r\nhi
+    [72, 84, 84, 80, 47, 49, 46, 49, 32, 50, 48, 48, 32, 79, 75, 13, 10, 83, 101, 114, 118, 101, 114, 58, 32, 104, 13, 10,
+     67, 111, 110, 116, 101, 110, 116, 45, 76, 101, 110, 103, 116, 104, 58, 32, 50, 13, 10, 88, 45, 65, 58, 32, 49, 13, 10,
+     13, 10, 104, 105] := by decide +kernel
+
+example (rest : Bytes) : decodeOne false (message r0 ⟨200, .bytes [104, 105], []⟩ false ++ rest) =
+    some ({ status := 200, fields := [([83, 101, 114, 118, 101, 114], [104]),
+              ([67, 111, 110, 116, 101, 110, 116, 45, 76, 101, 110, 103, 116, 104], [50]), ([88, 45, 65], [49])],
+            framing := .cl 2, raw := [104, 105], body := [104, 105], trailers := [] }, rest) := by
+  rw [fixed_length_message r0 200 [104, 105] [] rest r0_ok (by decide) (by decide)]
+  have : HW.kept (withFraming r0 (.cl 2)).fields = [([83, 101, 114, 118, 101, 114], [104]),
+      ([67, 111, 110, 116, 101, 110, 116, 45, 76, 101, 110, 103, 116, 104], [50]), ([88, 45, 65], [49])] := by
+    decide +kernel
+  simp [this]
+
+/-- body stream of unknown length read as "a", "", "bc", with a trailer, on a HEAD request and not -/
+example (rest : Bytes) :
+    decodeOne false (message r0 ⟨200, .stream (-1) [[97], [], [98, 99]], [([88, 45, 84], [118])]⟩ false ++ rest) =
+      some (expected r0 ⟨200, .stream (-1) [[97], [], [98, 99]], [([88, 45, 84], [118])]⟩ false, rest) ∧
+    (expected r0 ⟨200, .stream (-1) [[97], [], [98, 99]], [([88, 45, 84], [118])]⟩ false).body = [97, 98, 99] ∧
+    (expected r0 ⟨200, .stream (-1) [[97], [], [98, 99]], [([88, 45, 84], [118])]⟩ false).trailers = [([88, 45, 84], [118])] ∧
+    (expected r0 ⟨200, .stream (-1) [[97], [], [98, 99]], [([88, 45, 84], [118])]⟩ true).body = [] :=
+  ⟨response_decodes r0 _ false rest r0_ok (by simp [SizesFit]) (by intro s h; cases h) (by decide),
+   by decide +kernel, by decide +kernel, by decide +kernel⟩
+
+/-- 304 with a body set by the handler, and a HEAD answer -/
+example (rest : Bytes) :
+    decodeOne false (message { r0 with statusLine := statusLineOf 304 [78] } ⟨304, .bytes [120], []⟩ false ++ rest) =
+      some (expected { r0 with statusLine := statusLineOf 304 [78] } ⟨304, .bytes [120], []⟩ false, rest) :=
+  response_decodes _ _ false rest
+    ⟨by decide, by decide, ⟨[78], by unfold NoCRLF; decide, rfl⟩, rfl, r0_ok.2.2.2.2⟩ (by simp [SizesFit]) (by intro s h; cases h) (by decide)
+
+/-! ### the joined model against bytes the real server wrote
+
+The three byte strings below are the output of the real `Engine.Serve` for the harness programs
+`respw M:GET:1.1:0 B:6869`, `respw M:GET:1.1:0 BS:-1:61,,6263 TR:582d54:76` and
+`respw M:HEAD:1.1:0 CW:w6869` (replayed with `bin/check C04 quick --replay`), header state as the
+engine leaves it (`Server: hertz`, the date, the default content type). -/
+
+def rReal : HW.RespHdr :=
+  { statusLine := statusLineOf 200 [79, 75], server := [104, 101, 114, 116, 122],
+    date := some [84, 117, 101, 44, 32, 50, 57, 32, 83, 101, 112, 32, 50, 48, 50, 54, 32, 48, 57, 58, 53, 52, 58, 49, 51, 32, 71, 77, 84],
+    contentType := [116, 101, 120, 116, 47, 112, 108, 97, 105, 110, 59, 32, 99, 104, 97, 114, 115, 101, 116, 61, 117, 116, 102, 45, 56], contentLength := 0,
+    contentEncoding := [], clBytes := [], h := [], trailer := [], cookies := [], connClose := false }
+
+theorem rReal_ok : HeadOK rReal 200 :=
+  ⟨by decide, by decide, ⟨[79, 75], by unfold NoCRLF; decide, rfl⟩, rfl, by intro kv h; cases h⟩
+
+example : message rReal ⟨200, .bytes [104, 105], []⟩ false =
+    [72, 84, 84, 80, 47, 49, 46, 49, 32, 50, 48, 48, 32, 79, 75, 13, 10, 83, 101, 114, 118, 101, 114, 58, 32, 104, 101, 114, 116, 122, 13, 10, 68, 97, 116, 101, 58, 32, 84, 117, 101, 44, 32, 50, 57, 32, 83, 101, 112, 32, 50, 48, 50, 54, 32, 48, 57, 58, 53, 52, 58, 49, 51, 32, 71, 77, 84, 13, 10, 67, 111, 110, 116, 101, 110, 116, 45, 84, 121, 112, 101, 58, 32, 116, 101, 120, 116, 47, 112, 108, 97, 105, 110, 59, 32, 99, 104, 97, 114, 115, 101, 116, 61, 117, 116, 102, 45, 56, 13, 10, 67, 111, 110, 116, 101, 110, 116, 45, 76, 101, 110, 103, 116, 104, 58, 32, 50, 13, 10, 13, 10, 104, 105] := by
+  decide +kernel
+
+example : message { rReal with trailer := [[88, 45, 84]] } ⟨200, .stream (-1) [[97], [], [98, 99]], [([88, 45, 84], [118])]⟩ false =
+    [72, 84, 84, 80, 47, 49, 46, 49, 32, 50, 48, 48, 32, 79, 75, 13, 10, 83, 101, 114, 118, 101, 114, 58, 32, 104, 101, 114, 116, 122, 13, 10, 68, 97, 116, 101, 58, 32, 84, 117, 101, 44, 32, 50, 57, 32, 83, 101, 112, 32, 50, 48, 50, 54, 32, 48, 57, 58, 53, 52, 58, 49, 51, 32, 71, 77, 84, 13, 10, 67, 111, 110, 116, 101, 110, 116, 45, 84, 121, 112, 101, 58, 32, 116, 101, 120, 116, 47, 112, 108, 97, 105, 110, 59, 32, 99, 104, 97, 114, 115, 101, 116, 61, 117, 116, 102, 45, 56, 13, 10, 84, 114, 97, 110, 115, 102, 101, 114, 45, 69, 110, 99, 111, 100, 105, 110, 103, 58, 32, 99, 104, 117, 110, 107, 101, 100, 13, 10, 84, 114, 97, 105, 108, 101, 114, 58, 32, 88, 45, 84, 13, 10, 13, 10, 49, 13, 10, 97, 13, 10, 50, 13, 10, 98, 99, 13, 10, 48, 13, 10, 88, 45, 84, 58, 32, 118, 13, 10, 13, 10] := by
+  decide +kernel
+
+/-- the documented exclusion, as the real server behaves: a hijacked chunked writer answering a HEAD
+request sends its chunks (`2\r\nhi\r\n0\r\n\r\n`) after the header block -/
+example : message rReal ⟨200, .writer [.write [104, 105]], []⟩ true =
+    [72, 84, 84, 80, 47, 49, 46, 49, 32, 50, 48, 48, 32, 79, 75, 13, 10, 83, 101, 114, 118, 101, 114, 58, 32, 104, 101, 114, 116, 122, 13, 10, 68, 97, 116, 101, 58, 32, 84, 117, 101, 44, 32, 50, 57, 32, 83, 101, 112, 32, 50, 48, 50, 54, 32, 48, 57, 58, 53, 52, 58, 49, 51, 32, 71, 77, 84, 13, 10, 67, 111, 110, 116, 101, 110, 116, 45, 84, 121, 112, 101, 58, 32, 116, 101, 120, 116, 47, 112, 108, 97, 105, 110, 59, 32, 99, 104, 97, 114, 115, 101, 116, 61, 117, 116, 102, 45, 56, 13, 10, 84, 114, 97, 110, 115, 102, 101, 114, 45, 69, 110, 99, 111, 100, 105, 110, 103, 58, 32, 99, 104, 117, 110, 107, 101, 100, 13, 10, 13, 10, 50, 13, 10, 104, 105, 13, 10, 48, 13, 10, 13, 10] := by
+  decide +kernel
+
+/-! ### any header state the setters can produce
+
+`HeadOK` is the header before anything touched its framing fields.  `HeadInv r status d` is the
+invariant the setters keep: no generic field called Content-Length; `contentLengthBytes` empty or a
+decimal number; at most one generic field called Transfer-Encoding, spelled exactly so, with value
+`chunked`, and never next to a Content-Length; `d` is what such a state declares by itself
+(`Declares`).  The writer's `SetContentLength` overrides the declaration; where the writer makes no call
+(HEAD or 1xx/204/304 with nothing to announce) the declaration goes out as it is, e.g. the
+`Content-Length` a handler set on the answer to a HEAD request. -/
+
+theorem response_decodes_any_state (r : HW.RespHdr) (d : Spec.Resp.Framing) (p : Prog) (isHead : Bool) (rest : Bytes)
+    (hr : HeadInv r p.status d) (hs : SizesFit p) (hw : WriterHasBody p isHead)
+    (hok : (frame p isHead).failed = false) :
+    decodeOne isHead (message r p isHead ++ rest) =
+      some ({ expected r p isHead with framing := effFraming d (frame p isHead).framing }, rest) :=
+  message_decodes_inv r d p isHead rest hr hs hw hok
+
+/-- `SetContentLength` keeps the invariant (so the theorem applies again to the next `Write` on the same header) -/
+theorem set_content_length_keeps_invariant (r : HW.RespHdr) (st : Nat) (d : Spec.Resp.Framing) (f : H1.Resp.Framing)
+    (hr : HeadInv r st d) (hn : ∀ n, f = .cl n → n < 2 ^ 63) : HeadInv (withFraming r f) st (effFraming d f) := by
+  obtain ⟨h1, h2, h3, hcl, hd⟩ := hr
+  obtain ⟨a, b⟩ := declares_withFraming r d f hcl hd (fun n e => Nat.lt_trans (hn n e) two63_lt)
+  exact ⟨h1, h2, by rw [withFraming_statusLine]; exact h3, a, b⟩
+
+/-- non-vacuity: `c.Header("Content-Length", "5")` on the answer to a HEAD request (replayed on the real
+server: `respw M:HEAD:1.1:0 H:436f6e74656e742d4c656e677468:35`, these bytes) -/
+def rDeclared : HW.RespHdr := { rReal with clBytes := [53], contentLength := 5 }
+
+theorem rDeclared_inv : HeadInv rDeclared 200 (.cl 5) :=
+  ⟨by decide, by decide, ⟨[79, 75], by unfold NoCRLF; decide, rfl⟩, (by intro kv h; cases h),
+   (Declares.cl (r := rDeclared) (by decide) (by decide) (by intro kv h; cases h))⟩
+
+example : message rDeclared ⟨200, .bytes [], []⟩ true =
+    [72, 84, 84, 80, 47, 49, 46, 49, 32, 50, 48, 48, 32, 79, 75, 13, 10, 83, 101, 114, 118, 101, 114, 58, 32, 104, 101, 114, 116, 122, 13, 10, 68, 97, 116, 101, 58, 32, 84, 117, 101, 44, 32, 50, 57, 32, 83, 101, 112, 32, 50, 48, 50, 54, 32, 48, 57, 58, 53, 52, 58, 49, 51, 32, 71, 77, 84, 13, 10, 67, 111, 110, 116, 101, 110, 116, 45, 84, 121, 112, 101, 58, 32, 116, 101, 120, 116, 47, 112, 108, 97, 105, 110, 59, 32, 99, 104, 97, 114, 115, 101, 116, 61, 117, 116, 102, 45, 56, 13, 10, 67, 111, 110, 116, 101, 110, 116, 45, 76, 101, 110, 103, 116, 104, 58, 32, 53, 13, 10, 13, 10] := by
+  decide +kernel
+
+example (rest : Bytes) : (decodeOne true (message rDeclared ⟨200, .bytes [], []⟩ true ++ rest)).map
+      (fun m => (m.1.framing, m.1.body, m.2)) = some (.cl 5, [], rest) := by
+  rw [response_decodes_any_state rDeclared (.cl 5) _ true rest rDeclared_inv (by simp [SizesFit])
+    (by intro s h; cases h) (by decide)]
+  rfl
+
+/-- non-vacuity, chunked declaration overridden: `SetBodyStream(r, -1)` then `SetBody("hi")` -/
+example (rest : Bytes) :
+    (decodeOne false (message { rReal with h := [([88, 45, 65], [49]), (Gen.Str.strTransferEncoding, Gen.Str.strChunked)] }
+        ⟨200, .bytes [104, 105], []⟩ false ++ rest)).map (fun m => (m.1.framing, m.1.body, m.2)) =
+      some (.cl 2, [104, 105], rest) := by
+  rw [response_decodes_any_state _ .chunked _ false rest
+    ⟨by decide, by decide, ⟨[79, 75], by unfold NoCRLF; decide, rfl⟩,
+      by unfold NoName; rw [sCL_eq]; decide,
+      (Declares.chunked [([88, 45, 65], [49])] [] rfl rfl (by unfold NoName; rw [sTE_eq]; decide) (by intro kv h; cases h))⟩
+    (by simp [SizesFit]) (by intro s h; cases h) (by decide)]
+  rfl
+
+/-- **Finding** (outside the invariant, real server): `SetBodyStream(r, -1)` followed by
+`Header.Set("Content-Length", "5")` — the Content-Length setter stores the value without deleting the
+`Transfer-Encoding: chunked` that `SetBodyStream` put into the generic fields, and `writeBodyStream` then
+sees `ContentLength() = 5 ≥ 0`, so it makes no `SetContentLength` call and copies the stream unchunked.
+The response carries both framing headers and a body that is not chunk-encoded
+(`respw M:GET:1.1:0 BS:-1:6162636465 H:436f6e74656e742d4c656e677468:35`, these bytes); the strict
+reader rejects it and so does `net/http.ReadResponse`. -/
+def rBoth : HW.RespHdr :=
+  { rReal with date := some [84, 117, 101, 44, 32, 50, 57, 32, 83, 101, 112, 32, 50, 48, 50, 54, 32, 48, 57, 58, 53, 53, 58, 51, 53, 32, 71, 77, 84], clBytes := [53], contentLength := 5,
+               h := [(Gen.Str.strTransferEncoding, Gen.Str.strChunked)] }
+
+theorem length_set_after_chunked_stream_fails_at :
+    rBoth.bytes ++ [97, 98, 99, 100, 101] =
+      [72, 84, 84, 80, 47, 49, 46, 49, 32, 50, 48, 48, 32, 79, 75, 13, 10, 83, 101, 114, 118, 101, 114, 58, 32, 104, 101, 114, 116, 122, 13, 10, 68, 97, 116, 101, 58, 32, 84, 117, 101, 44, 32, 50, 57, 32, 83, 101, 112, 32, 50, 48, 50, 54, 32, 48, 57, 58, 53, 53, 58, 51, 53, 32, 71, 77, 84, 13, 10, 67, 111, 110, 116, 101, 110, 116, 45, 84, 121, 112, 101, 58, 32, 116, 101, 120, 116, 47, 112, 108, 97, 105, 110, 59, 32, 99, 104, 97, 114, 115, 101, 116, 61, 117, 116, 102, 45, 56, 13, 10, 67, 111, 110, 116, 101, 110, 116, 45, 76, 101, 110, 103, 116, 104, 58, 32, 53, 13, 10, 84, 114, 97, 110, 115, 102, 101, 114, 45, 69, 110, 99, 111, 100, 105, 110, 103, 58, 32, 99, 104, 117, 110, 107, 101, 100, 13, 10, 13, 10, 97, 98, 99, 100, 101] ∧
+    decodeOne false (rBoth.bytes ++ [97, 98, 99, 100, 101]) = none := by
+  refine ⟨by decide +kernel, ?_⟩
+  refine decodeOne_none_of_framing false _ rBoth.statusLine _ _ 200
+    (HW.parseHead_block rBoth.statusLine _ [97, 98, 99, 100, 101] (by decide)) (by decide +kernel) ?_
+  have : HW.kept rBoth.fields =
+      [(Gen.Str.strServer, rBoth.server), (Gen.Str.strDate, [84, 117, 101, 44, 32, 50, 57, 32, 83, 101, 112, 32, 50, 48, 50, 54, 32, 48, 57, 58, 53, 53, 58, 51, 53, 32, 71, 77, 84]),
+       (Gen.Str.strContentType, rBoth.contentType), (Gen.Str.strContentLength, [53]),
+       (Gen.Str.strTransferEncoding, Gen.Str.strChunked)] := by decide +kernel
+  rw [this]
+  simp only [framingOf, sCL_eq, sTE_eq]
+  decide +kernel
+
+/-! ### where the statement is false: the hypotheses cannot be dropped -/
+
+/-- Without `WriterHasBody` the statement is false: a hijacked chunked writer on a HEAD request
+(`respw M:HEAD:1.1:0 CW:w6869`) writes `2\r\nhi\r\n0\r\n\r\n` after the header block; a reader that
+knows the request was HEAD takes these 12 bytes for the start of the next response. -/
+theorem response_decodes_fails_at_writer_on_head :
+    ¬ (∀ (r : HW.RespHdr) (p : Prog) (isHead : Bool) (rest : Bytes), HeadOK r p.status → SizesFit p →
+        (frame p isHead).failed = false →
+        decodeOne isHead (message r p isHead ++ rest) = some (expected r p isHead, rest)) := by
+  intro H
+  have h := H rReal ⟨200, .writer [.write [104, 105]], []⟩ true [] rReal_ok (by simp [SizesFit]) (by decide)
+  rw [message_bodiless_leftover rReal _ true [] rReal_ok (by simp [SizesFit]) (by decide)] at h
+  simp only [Option.some.injEq, Prod.mk.injEq] at h
+  exact absurd h.2 (by decide)
+
+/-- what is left over in that case -/
+theorem writer_on_head_leftover (rest : Bytes) :
+    (decodeOne true (message rReal ⟨200, .writer [.write [104, 105]], []⟩ true ++ rest)).map (·.2) =
+      some ([50, 13, 10, 104, 105, 13, 10, 48, 13, 10, 13, 10] ++ rest) := by
+  rw [message_bodiless_leftover rReal _ true rest rReal_ok (by simp [SizesFit]) (by decide)]
+  rfl
+
+/-- `response_decodes` is the `_partial` statement: the same with the excluding hypothesis spelled out -/
+theorem response_decodes_partial (r : HW.RespHdr) (p : Prog) (isHead : Bool) (rest : Bytes)
+    (hr : HeadOK r p.status) (hs : SizesFit p)
+    (hw : ∀ s, p.body = .writer s → isHead = false ∧ noBodyStatus p.status = false)
+    (hok : (frame p isHead).failed = false) :
+    decodeOne isHead (message r p isHead ++ rest) = some (expected r p isHead, rest) :=
+  message_decodes r p isHead rest hr hs hw hok
+
+/-- `Unknown Status Code` -/
+def strUnknownStatus : Bytes := [85, 110, 107, 110, 111, 119, 110, 32, 83, 116, 97, 116, 117, 115, 32, 67, 111, 100, 101]
+
+/-- Without `100 ≤ status ≤ 999` in `HeadOK` it is false as well: `SetStatusCode(1000)` and
+`SetStatusCode(99)` are written verbatim (`HTTP/1.1 1000 Unknown Status Code`), which is not a status line
+(the strict reader and `net/http.ReadResponse` both reject it). -/
+theorem status_out_of_range_fails_at :
+    decodeOne false (message { rReal with statusLine := statusLineOf 1000 strUnknownStatus } ⟨1000, .bytes [104, 105], []⟩ false) = none ∧
+    decodeOne false (message { rReal with statusLine := statusLineOf 99 strUnknownStatus } ⟨99, .bytes [104, 105], []⟩ false) = none := by
+  constructor
+  · refine decodeOne_none_of_status false _ (statusLineOf 1000 strUnknownStatus) _ _
+      (HW.parseHead_block (statusLineOf 1000 strUnknownStatus) _ [104, 105] (by decide)) (by decide +kernel)
+  · refine decodeOne_none_of_status false _ (statusLineOf 99 strUnknownStatus) _ _
+      (HW.parseHead_block (statusLineOf 99 strUnknownStatus) _ [104, 105] (by decide)) (by decide +kernel)
+
+/-- the first of these, as the real server writes it (`respw M:GET:1.1:0 ST:1000 B:6869`) -/
+example : message { rReal with statusLine := statusLineOf 1000 strUnknownStatus } ⟨1000, .bytes [104, 105], []⟩ false =
+    [72, 84, 84, 80, 47, 49, 46, 49, 32, 49, 48, 48, 48, 32, 85, 110, 107, 110, 111, 119, 110, 32, 83, 116, 97, 116, 117, 115, 32, 67, 111, 100, 101, 13, 10, 83, 101, 114, 118, 101, 114, 58, 32, 104, 101, 114, 116, 122, 13, 10, 68, 97, 116, 101, 58, 32, 84, 117, 101, 44, 32, 50, 57, 32, 83, 101, 112, 32, 50, 48, 50, 54, 32, 48, 57, 58, 53, 52, 58, 49, 51, 32, 71, 77, 84, 13, 10, 67, 111, 110, 116, 101, 110, 116, 45, 84, 121, 112, 101, 58, 32, 116, 101, 120, 116, 47, 112, 108, 97, 105, 110, 59, 32, 99, 104, 97, 114, 115, 101, 116, 61, 117, 116, 102, 45, 56, 13, 10, 67, 111, 110, 116, 101, 110, 116, 45, 76, 101, 110, 103, 116, 104, 58, 32, 50, 13, 10, 13, 10, 104, 105] := by
+  decide +kernel
 
 end Hertz.Props.C04
